@@ -5,7 +5,7 @@
 EXTENDS Reduction, Json
 
 OldKinds == {"alias", "palias", "const", "sum", "inc", "lag", "exo", "time"}
-NewKinds == {"neg", "negs", "negb", "sq", "nsq", "dbl", "diff", "prod", "quo", "self", "fn"}
+NewKinds == {"neg", "negs", "negb", "sq", "nsq", "dbl", "diff", "prod", "quo", "self", "fn", "abs"}
 PlainKinds == OldKinds \cup {"self"}     \* slice A: the kinds without sign / power / product, + reads-itself
 Spellings == {"negs", "negb"}            \* only offered for the first variable
 AllKinds == OldKinds \cup NewKinds
